@@ -726,10 +726,13 @@ def classify_c07(intact, got, exhausted, tail=b'\n'):
             ob = {k: v for k, v in b['options'].items() if k != 'length'}
             same_opts = oa == ob
             for key in ('text', 'diff'):
-                # the recorded finding is about a stream that ends RIGHT AFTER one of the section's newlines; a shortened
-                # section yielded when the stream ends anywhere else is a different failure
+                # the recorded finding is about a stream that ends RIGHT AFTER one of the section's newlines (seen on the last
+                # bytes of the stream, or -- in codecs whose newline is not the ASCII byte, e.g. EBCDIC -- on the shortened
+                # text itself ending with a newline); a shortened section yielded when the stream ends anywhere else is a
+                # different failure
                 if key in a and key in b and type(a[key]) is type(b[key]) and same_opts and \
-                        a[key].startswith(b[key]) and 0 < len(b[key]) < len(a[key]) and tail[-1:] in (b'\n', b'\x00'):
+                        a[key].startswith(b[key]) and 0 < len(b[key]) < len(a[key]) and \
+                        (tail[-1:] in (b'\n', b'\x00') or (key == 'text' and b[key].endswith('\n'))):
                     return ('short-read-accepted',
                             'record %d (%s) was yielded with content cut short (%d of %d units) because the stream '
                             'ended inside it' % (i, g['section'], len(b[key]), len(a[key])))
@@ -785,6 +788,30 @@ class Truncate(Family):
                         dict(id='...meta', opts=[['length', '3']], blank=[], content=b'{}\n'.hex(), expect=dict(metadata={}), enc='utf-8', ast=None)])
                     for k in range(len(gf.render(sf)) + 1):
                         yield dict(kind='cut', file=sf, cut=k)
+            # text sections under every codec of the catalogue that is not ASCII-transparent (escape characters, shift
+            # sequences, multi-byte units), written by the library itself from a text full of that codec's escape characters
+            # in front of newlines, and two hand-made contents (hz line continuation); cut at EVERY byte
+            if i == 0:
+                probe = 'Moved C:\\new ~\n~{ +AGE- \\n\n\\\n~\nlast ~\n'
+                raws = []
+                for codec in catalogue_text_codecs():
+                    if _can(PRINTABLE, codec) and PRINTABLE.encode(codec) == PRINTABLE.encode('ascii') and codec not in ('utf_7', 'hz', 'unicode_escape'):
+                        continue
+                    t = ''.join(ch for ch in probe if _can(ch, codec))
+                    for ind in ('omitted', {'i': 0}):
+                        wobs, wdata, per = sl.run_writer(sl.S('utf-8'), sl.S('1.0'), [
+                            ['write_preamble', sl.S(t), sl.S(codec), ind, None, None], ['new_change', None], ['new_file', None],
+                            ['write_meta', {'d': {'k': 1}}, None, 'omitted']])
+                        if wdata is not None and all(p_[0] for p_ in per):
+                            raws.append(wdata)
+                for body in (b'ab~\ncd\n', b'ab~\n~\ncd\n'):
+                    raws.append(b'#diffx: version=1.0, encoding=utf-8\n#.preamble: encoding=hz, indent=0, length=%d\n' % len(body) + body +
+                                b'#.change:\n#..file:\n#...meta: length=3\n{}\n')
+                for wdata in raws:
+                    lo = wdata.index(b'\n', wdata.index(b'#.preamble')) + 1
+                    hi = wdata.index(b'#.change')
+                    for k in range(lo, hi + 2):
+                        yield dict(kind='cutraw', data=wdata.hex(), cut=k)
             # content with a line that is a valid next header behind a prefix the grammar does not allow (byte order marks
             # of every Unicode codec, white space, NUL, ...): the intact file reads as written, and the same file with the
             # declared length SHORTENED so that the content ends right before that line has a non-header line in header
@@ -843,6 +870,8 @@ class Truncate(Family):
             return gf.render(c['file'])
         if c['kind'] == 'cut':
             return gf.render(c['file'])[:c['cut']]
+        if c['kind'] == 'cutraw':
+            return bytes.fromhex(c['data'])[:c['cut']]
         g = json.loads(json.dumps(c['file']))
         for o in g['sections'][c['at']]['opts']:
             if o[0] == 'length':
@@ -876,6 +905,8 @@ class Truncate(Family):
     def nontrivial(self, c):
         if c['kind'] == 'cut':
             return 0 < c['cut'] < len(gf.render(c['file']))
+        if c['kind'] == 'cutraw':
+            return 0 < c['cut'] < len(c['data']) // 2
         return True
 
     def describe(self, c):
@@ -884,6 +915,7 @@ class Truncate(Family):
         return d
 
     _intact_cache = {}
+    _raw_cache = {}
 
     def _intact(self, f):
         key = id(f)
@@ -918,6 +950,15 @@ class Truncate(Family):
                             'content declared as %s bytes is followed by the line %r, which is not a header: got %d records '
                             'then %r (expected %d records, the last with text %r, then a parse error)'
                             % (c['value'], line, len(records), term[:2], si + 1, c['first'])))
+            return out
+        if c['kind'] == 'cutraw':
+            full = bytes.fromhex(c['data'])
+            if c['data'] not in self._raw_cache:
+                self._raw_cache.clear()
+                self._raw_cache[c['data']] = sl.run_reader(full)[1]
+            r = classify_c07(self._raw_cache[c['data']], records, exhausted=True, tail=data[-4:])
+            if r:
+                out.append(('C07', r[0], 'file cut at byte %d of %d: %s' % (c['cut'], len(full), r[1])))
             return out
         intact = self._intact(c['file'])
         if c['kind'] == 'cut':
@@ -1097,6 +1138,15 @@ class Order(Family):
                     seq.append(rng.choice(IDS24))
                     yield dict(kind='stream-kind', ids=seq, shift_to=_io.DEFAULT_BUFFER_SIZE - k, wrap=wrap)
                     yield dict(kind='stream-kind', ids=seq, shift_to=2 * _io.DEFAULT_BUFFER_SIZE - k, wrap=wrap)
+        # the document starts somewhere inside the stream (after a copy of itself, after unrelated bytes)
+        for wrap in ('offset', 'offset-junk'):
+            for _ in range(40 if tier == 'quick' else 800):
+                seq = ['diffx']
+                for _ in range(rng.randint(1, 6)):
+                    seq.append(rng.choice(spec.MAY_FOLLOW[seq[-1]]))
+                if rng.random() < 0.6:
+                    seq.append(rng.choice(IDS24))
+                yield dict(kind='stream-kind', ids=seq, wrap=wrap)
         # histories: several files read one after the other IN ONE PROCESS (the case carries the whole history, so a replay
         # reproduces it): what an earlier file made the reader do must not change the verdict on a later one
         for i in range(150 if tier == 'quick' else 3000):
@@ -1332,6 +1382,22 @@ class HeaderFam(Family):
                     yield dict(kind='dup-key', line=hx(b'#.change: a=1, ' + key + b'=' + bad + b', b=2, ' + key + b'=' + good))
         for good in goods:
             yield dict(kind='dup-key', line=hx(b'#.change: k=' + good + b', k=' + good + b', k=7'))
+        # other stream kinds (BufferedReader, real file): the header under test starts d bytes before the stream's buffer
+        # edge (its newline lies beyond it); valid lines of many lengths, and the same with one junk byte somewhere
+        import io as _io
+        for wrap in ('buffered', 'file'):
+            for _ in range(60 if tier == 'quick' else 1500):
+                pairs = []
+                for _ in range(rng.randint(1, 12)):
+                    pairs.append(bytes(rng.choice(b'abcXYZ') for _ in range(rng.randint(1, 6))) + b'=' +
+                                 bytes(rng.choice(valch) for _ in range(rng.randint(1, 12))))
+                line = b'#.change: ' + b', '.join(pairs)
+                d = rng.randint(1, min(95, len(line) - 1))
+                edge = _io.DEFAULT_BUFFER_SIZE * rng.choice([1, 1, 2])
+                yield dict(kind='stream-kind', line=hx(line), shift_to=edge - d, wrap=wrap)
+                j = rng.randrange(10, len(line) + 1)
+                bad = line[:j] + bytes([rng.choice(b'+ ;\xc3=,')]) * rng.choice([1, 1, 2, 30, 90]) + line[j:]
+                yield dict(kind='stream-kind', line=hx(bad), shift_to=edge - rng.randint(1, 95), wrap=wrap)
         # every non-ASCII character that some Unicode-aware operation equates with an ASCII letter or digit (case folding,
         # case-insensitive matching, compatibility normalisation, decimal digits of other scripts, plus a sample of other
         # letters), UTF-8 encoded, as a key, inside a key, and as a value: the grammar is about ASCII bytes only
@@ -1351,8 +1417,14 @@ class HeaderFam(Family):
                 pre = b''
                 if c.get('prelude'):
                     pre = unhx(c['prelude']) + b'\n#..file:\n#...meta: length=3\n{}\n'
-                data = self.PREFIX + pre + unhx(c['line']) + b'\n'
-            c['_impl'] = (data,) + sl.run_reader(data)
+                prefix = self.PREFIX
+                if c.get('shift_to'):
+                    # the main header padded with an unknown option so that the line under test starts at an exact offset
+                    k = c['shift_to'] - len(prefix) - len(pre) - len(b', pad=')
+                    if k >= 1:
+                        prefix = prefix[:-1] + b', pad=' + b'p' * k + b'\n'
+                data = prefix + pre + unhx(c['line']) + b'\n'
+            c['_impl'] = (data,) + sl.run_reader(data, wrap=c.get('wrap'))
         return c['_impl']
 
     def model_line(self, c):
@@ -1422,6 +1494,13 @@ class Chunk(Family):
                 break
         long_line = b'#diffx: version=1.0\n#.preamble: length=%d\n' % 401 + b'y' * 400 + b'\n#.change:\n#..file:\n#...meta: length=3\n{}\n'
         files.append(long_line)
+        # CRLF header lines with content full of CR bytes that are NOT followed by LF (UTF-16 CRLF is 0D 00 0A 00; lone CRs)
+        p16 = 'one\r\ntwo\r\n\r\nthree\r\n'.encode('utf-16-le')
+        d16 = '-a\r\n+b\r\n c\r\n'.encode('utf-16-le')
+        lone = b'a\rb\r\rc\r\n\rd\r\n'
+        files.append(b'#diffx: version=1.0, encoding=utf-8\r\n#.preamble: encoding=utf-16-le, indent=0, length=%d, line_endings=dos\r\n' % len(p16) + p16 +
+                     b'#.change:\r\n#..preamble: indent=0, length=%d, line_endings=dos\r\n' % len(lone) + lone +
+                     b'#..file:\r\n#...meta: length=4, line_endings=dos\r\n{}\r\n#...diff: encoding=utf-16-le, length=%d, line_endings=dos\r\n' % len(d16) + d16)
         grid = []
         if tier == 'quick':
             for fi in range(len(files)):
@@ -1544,6 +1623,27 @@ def catalogue_text_codecs():
     return _TEXT_CODECS
 
 
+def coincident_pairs():
+    """(X, Y, t1, t2): single-byte catalogue codecs and printable-ASCII texts t1 != t2 with t1.encode(X) == t2.encode(Y)."""
+    cs = [c for c in catalogue_text_codecs() if _can(PRINTABLE, c) and len(PRINTABLE.encode(c)) == len(PRINTABLE)]
+    out = []
+    for X in cs:
+        bx = PRINTABLE.encode(X)
+        for Y in cs:
+            if X == Y or '\n'.encode(X) != '\n'.encode(Y):
+                continue
+            try:
+                t = bx.decode(Y)
+            except UnicodeError:
+                continue
+            diff = [(a, b) for a, b in zip(PRINTABLE, t) if a != b and b in PRINTABLE and a not in '"\\' and b not in '"\\']
+            if diff and all(a == b or (a, b) in diff for a, b in zip(PRINTABLE, t) if a in 'abnote{}:", \n'):
+                t1 = 'x' + ''.join(a for a, b in diff) + 'y'
+                t2 = 'x' + ''.join(b for a, b in diff) + 'y'
+                out.append((X, Y, t1, t2))
+    return out
+
+
 class Nesting(Family):
     name = 'nesting'
     rule = ('every container history main -> (change|file)* up to a bounded number of transitions that the hierarchy '
@@ -1607,6 +1707,33 @@ class Nesting(Family):
                          ['new_change', None], ['write_preamble', sl.S(probe), None, {'i': 2}, None, None], ['new_file', None],
                          ['write_meta', {'d': {'k': 1}}, None, 'omitted']]
                 yield dict(kind='wellformed', main='utf-8', calls=calls, hist='cfc', catalogue=codec)
+
+        # byte-coincident siblings: two codecs of the catalogue that map some ASCII characters to each other's bytes (EBCDIC
+        # variants): sibling containers declare one each, and the metadata / preamble below them are DIFFERENT texts whose
+        # encoded bytes are IDENTICAL -- each must come back as its own text
+        for X, Y, t1, t2 in coincident_pairs():
+            try:
+                d1, d2 = {'note': t1}, {'note': t2}
+                j1 = json.dumps(d1, indent=4, sort_keys=True)
+                if json.loads(j1.encode(X).decode(Y)) != d2:
+                    continue
+            except Exception:
+                continue
+            for kinds in (('c', 'c'), ('f', 'f'), ('c', 'f')):
+                calls = []
+                for kind, codec, d, t in ((kinds[0], X, d1, t1), (kinds[1], Y, d2, t2), (kinds[0], X, d1, t1)):
+                    if kind == 'c':
+                        if calls and self._last_container(calls) == 'c':
+                            calls += [['new_file', None], ['write_meta', {'d': {'k': 1}}, None, 'omitted']]
+                        calls += [['new_change', sl.S(codec)], ['write_preamble', sl.S(t + '\n'), None, {'i': 0}, None, None],
+                                  ['write_meta', {'d': d}, None, 'omitted']]
+                    else:
+                        if not calls:
+                            calls += [['new_change', None]]
+                        calls += [['new_file', sl.S(codec)], ['write_meta', {'d': d}, None, 'omitted']]
+                if self._last_container(calls) == 'c':
+                    calls += [['new_file', None], ['write_meta', {'d': d1}, None, 'omitted']]
+                yield dict(kind='wellformed', main=X, calls=calls, hist='coincident', catalogue=X)
 
     @staticmethod
     def _last_container(calls):
